@@ -185,6 +185,20 @@ func zzHandleIBTPStep(nStatus int, onlyRequests bool) {
 		zz.Assume(zz.Implies(i > r, zz.Not(zz.Or(preStatus == pb.TransactionStatus_SUCCESS, zz.Or(preStatus == pb.TransactionStatus_FAILURE, preStatus == pb.TransactionStatus_ROLLBACK)))))
 	}
 	ibtp := &pb.IBTP{From: from, To: to, Index: i, Type: t, TimeoutHeight: zz.I64("timeout")}
+	// the Extra field is the sender's to fill: empty, or something that decodes as another hub's
+	// begin-failure / rollback notice (only meaningful for requests that really come from another hub)
+	// (for a destination on another hub such an Extra IS that hub's notice - the inter-hub protocol,
+	// whose proof the pool checks first: C03/C04 - so the variants are applied to same-hub pairs only)
+	extra := 0
+	if dk != 2 {
+		extra = zz.Choice("extra", 3)
+	}
+	switch extra {
+	case 1:
+		ibtp.Extra, _ = (&pb.BxhProof{TxStatus: pb.TransactionStatus_BEGIN_FAILURE}).Marshal()
+	case 2:
+		ibtp.Extra, _ = (&pb.BxhProof{TxStatus: pb.TransactionStatus_BEGIN_ROLLBACK}).Marshal()
+	}
 	snap := w.snapshot()
 	nEv := len(w.events)
 	res := ic.im.HandleIBTP(ibtp)
